@@ -21,6 +21,8 @@ Definition x_dispatch_rows_into (K : nat) :=
 Definition x_score_with := @score_with f32.
 Definition x_unstripe (C : nat) := @sc_unstripe f32 C.
 Definition x_sc_get := @sc_get f32.
+Definition x_iter_ops (C : nat) := @sc_iter_ops f32 C.
+Definition x_offset := @sc_offset f32.
 Definition x_score_position := @score_position f32 F32.add F32.zero.
 Definition x_layout_ok : bool :=
   andb (andb (avx2_layout_ok avx2_permute_consts) (avx2_layout_ok avx2_gather_consts))
@@ -29,5 +31,5 @@ Definition x_layout_ok : bool :=
 Extraction Language OCaml.
 Extraction "score_model.ml"
   x_of_bits x_to_bits x_striped_b x_score_def x_generic_rows_into x_avx2_rows_into
-  x_sse2_rows_into x_dispatch_rows_into x_score_with x_unstripe x_sc_get x_score_position
+  x_sse2_rows_into x_dispatch_rows_into x_score_with x_unstripe x_sc_get x_iter_ops x_offset x_score_position
   x_layout_ok check_value check_values check_C01 check_same_results check_subrange passes f32_terms f32_sum feqb seq_R.
